@@ -204,10 +204,8 @@ namespace vh
                                        ? -1
                                        : static_cast<long long>(rec(i, r));
                     srec += sep + std::to_string(ri);
-                    double d2 = d * d;
-                    long long dq = (std::isfinite(d2) && d2 < 2.0e9 && d2 >= 0)
-                                       ? std::llround(std::ldexp(d2, -2 * dsc))
-                                       : -1;
+                    double d2 = std::ldexp(d * d, -2 * dsc);   // in units of 4^sc
+                    long long dq = (std::isfinite(d2) && d2 < 2.0e9 && d2 >= 0) ? std::llround(d2) : -1;
                     sdq += sep + std::to_string(dq);
                     srd += sep + rk.ref(d);
                     swq += sep + std::to_string(qfix(w, 20));
